@@ -321,10 +321,14 @@ def programs_table_sweep(ctx: Ctx, table: list[str]) -> list[dict]:
         bases.append((gid + "+strictish", f, ["--check-untyped-defs", "--warn-unreachable", "--warn-unused-ignores",
                                                 "--strict-equality", "--warn-return-any"]))
         bases.append((gid + "+display", f, list(DISPLAY_BASE)))
+        # the same program under a config file that has per-module sections (which mention unrelated options):
+        # per-module sections clone the options, so globally given values must survive in the clone AND in the key
+        bases.append((gid + "+cfgbase", f, ["--config-file", "cfg_base.ini"]))
     for gid, (main, extra) in GENERIC_PKG.items():
         f = {"main.py": main}
         f.update(extra)
         bases.append((gid, f, []))
+        bases.append((gid + "+cfgbase", f, ["--config-file", "cfg_base.ini"]))
     files = seeded_order(corpus.files_matching("check-*.test"), ctx.seed)
     n_files = 4 if ctx.quick else 40
     per_file = 4 if ctx.quick else 12
@@ -346,7 +350,24 @@ def programs_table_sweep(ctx: Ctx, table: list[str]) -> list[dict]:
                 base = ["--python-version", f"{pv[0]}.{pv[1]}"]
             bases.append((c.id, f, base))
     partners = noop_flag_partners()
+    from mypy.errorcodes import error_codes as _all_codes
+
+    optional_codes = sorted(c for c, ec in _all_codes.items() if not ec.default_enabled)
+    reported_codes = ["arg-type", "assignment", "attr-defined", "call-arg", "empty-body", "import-not-found", "misc",
+                      "name-defined", "no-untyped-def", "operator", "return", "return-value", "type-arg", "unused-ignore",
+                      "var-annotated", "comparison-overlap", "no-any-return", "unreachable", "redundant-cast"]
+    CFG_BASE = ("[mypy]\n[mypy-main]\nwarn_no_return = True\n[mypy-m1]\nwarn_no_return = True\n"
+                "[mypy-pkg.*]\nwarn_no_return = True\n[mypy-*.sub.*]\nshow_error_context = False\n")
     for pid, f, base in bases:
+        if pid.split("+")[0] in GENERIC or pid.split("+")[0] in GENERIC_PKG:
+            # error-code flags: every code is a value of --disable-error-code / --enable-error-code
+            ec_pairs = []
+            for code in reported_codes:
+                ec_pairs.append((f"--disable-error-code={code}", base, base + ["--disable-error-code", code]))
+            for code in optional_codes:
+                ec_pairs.append((f"--enable-error-code={code}", base, base + ["--enable-error-code", code]))
+            progs.append({"pid": f"sweep-codes:{pid}", "files": f, "pairs": ec_pairs, "three_step": False,
+                          "root_files": {"cfg_base.ini": CFG_BASE}})
         pairs = []
         for flag in table:
             if flag in base:
@@ -375,6 +396,7 @@ def programs_table_sweep(ctx: Ctx, table: list[str]) -> list[dict]:
                     fn = f"cfg_{tag}_{key}.ini"
                     root_files[fn] = f"[mypy]\n[mypy-{pat}]\n{key} = True\n"
                     pairs.append((f"{flag}@{tag}", base, base + ["--config-file", fn]))
+            root_files["cfg_base.ini"] = CFG_BASE
             progs.append({"pid": f"sweep:{pid}", "files": f, "pairs": pairs, "three_step": False,
                           "root_files": root_files})
             continue
@@ -389,6 +411,7 @@ def programs_table_sweep(ctx: Ctx, table: list[str]) -> list[dict]:
                     root_files[fn] = f"[{section}]\n{key} = True\n"
                     ini_pairs.append((f"{flag}@{tag}", base, base + ["--config-file", fn]))
             pairs += ini_pairs
+        root_files["cfg_base.ini"] = CFG_BASE
         progs.append({"pid": f"sweep:{pid}", "files": f, "pairs": pairs, "three_step": False,
                       "root_files": root_files})
     return progs
